@@ -133,6 +133,9 @@ pub fn run(prop: &dyn Prop, opts: &RunOpts) -> std::io::Result<()> {
     let sample_every = (n_cases / 4).max(1);
 
     for (idx, (origin, ops)) in cases.iter().enumerate() {
+        // the case about to run, on disk BEFORE it runs: when the code under test kills the process (allocation
+        // failure, abort, stack overflow) tools/check takes this file as the failing input
+        let _ = std::fs::write(out.join("current_case.ops"), format!("# case {idx} {origin}\n{}\n", ops.join("\n")));
         let res = std::panic::catch_unwind(std::panic::AssertUnwindSafe(|| prop.exec_case(ops)));
         let res = match res {
             Ok(r) => r,
